@@ -25,6 +25,9 @@ char g_crash_ctx[512] = "";
 void note_site(BudgetState &b) {
     b.armed = false; // no recursion through the allocator seam while we symbolise
     std::string s = outermost_ezc3d_fn();
+    // heap trips (plain/g++ build only) also name the innermost library function: an allocation driven by a length field
+    // (readString) is another defect than one driven by dimensions or header counts
+    if (std::strcmp(b.kind, "heap") == 0) s += "/" + innermost_ezc3d_fn();
     std::snprintf(b.site, sizeof b.site, "%s", s.c_str());
 }
 } // namespace
@@ -63,6 +66,7 @@ static std::string ezc3d_fn(bool outermost) {
         if (name.compare(0, 7, "ezc3d::") != 0) continue; // a member of the library itself, not a std:: template over its types
         size_t p = name.find('(');
         if (p != std::string::npos) name.resize(p);
+        if (name.find(' ') != std::string::npos) continue; // "ezc3d::T* std::helper<...>": a std:: template that merely returns a library type
         p = name.find('[');
         if (p != std::string::npos) name.resize(p);
         if (!outermost) return name;
